@@ -65,3 +65,33 @@ def lookup_oracle(table, xs, impl_line):
             if c != nk - o - 2: return "upper margin: centre %d is not the last fully supported interval" % c
         elif not (k[c] <= x < k[c + 1]): return "centre %d does not bracket x" % c
     return None
+
+
+def replay_case(ctx, path, handler, mode="shipped"):
+    """Re-execute the single failing input of a replay file on the real code (REPLAY mode of the harness) and on
+    the model, then hand the lines to the property's own line handler (which reports a violation if it persists)."""
+    import json
+    r = json.load(open(path))
+    tl, cl = r.get("table_line"), r.get("case_line") or r.get("last_case_line")
+    if not tl and r.get("last_table_line"): tl = r["last_table_line"]
+    if not tl or not cl:
+        print("replay file has no single input (%s); re-running the check instead" % r.get("what", "")[:200])
+        return False
+    ctx.audit()
+    exe = build(ctx, r.get("mode", mode))
+    cases = os.path.join(ctx.scratch, "replay.in"); impl = cases + ".impl"; model = cases + ".model"
+    with open(cases, "w") as f: f.write(tl.strip() + "\n" + cl.strip() + "\n")
+    rc, out, err = ctx.run([exe, "REPLAY", cases, impl], timeout=120)
+    if rc != 0:
+        ctx.violation({"table_line": tl, "case_line": cl, "harness_rc": rc, "stderr": err[-2000:]}, "replay: the implementation %s on this input (rc=%d): %s" % ("hung" if rc in (124, -14) else "aborted", rc, err[-300:]))
+        return True
+    ctx.run_driver("EV", cases, model)
+    table = parse_table(tl.split())
+    for n, tw, c, i, m in triples(cases, impl, model):
+        if c.startswith("T "): continue
+        print("replay input : %s" % c[:300]); print("implementation: %s" % i); print("model/oracle  : %s" % m[:300])
+        handler(table, tw, c, i, m)
+        ctx.coverage["evaluations"] += 1; ctx.coverage["distinct_nontrivial"] = max(ctx.coverage["distinct_nontrivial"], 2)
+        ctx.coverage["samples"].append({"replayed": c[:300], "impl": i, "model": m[:200]})
+    ctx.coverage["rule"] = "replay of one recorded input"
+    return True
